@@ -3,7 +3,8 @@
    format tag and the id-requirement triple are regenerated from nixio/file.py (Gen/FileConsts.v).
    The read-only immutability theorems (for every program of store primitives) are in the
    second half, over the store model H5/Store.v. *)
-From NixV Require Import Base.Prelude Gen.FileConsts Pure.Version Proofs.VersionProofs.
+From NixV Require Import Base.Prelude Gen.FileConsts Pure.Version Proofs.VersionProofs
+  H5.Store Nix.Api Proofs.MonadLemmas.
 Open Scope Z_scope.
 
 (* for ALL integer triples: writable <-> the library's own version (+ valid id when required) *)
@@ -62,3 +63,27 @@ Theorem c11_rw_creates_missing : forall (content : Type) (empty : content) (f : 
     f' p = Some {| hdr := fresh_header; body := empty |} /\ forall q, q <> p -> f' q = f q.
 Proof. exact open_rw_missing. Qed.
 Print Assumptions c11_rw_creates_missing.
+
+(* ---- read-only sessions, for EVERY operation of the modelled API (Nix/Api.v) and every state:
+   the proofs are inductions over the structure of programs built from the primitive commands
+   (Proofs/MonadLemmas.v), so they cover every present and future call written in that monad *)
+
+(* a read-only file is never changed *)
+Theorem c11_ro_immutable : forall o now s, ro s = true -> is_reopen o = false ->
+  sto (fst (exec o now s)) = sto s.
+Proof. exact ro_immutable. Qed.
+Print Assumptions c11_ro_immutable.
+
+(* every call that would change the file in a writable session fails in a read-only one *)
+Theorem c11_ro_mutators_fail : forall o now s, ro s = false -> is_reopen o = false ->
+  sto (fst (exec o now s)) <> sto s ->
+  exists e, snd (exec o now (set_ro s true)) = RErr e.
+Proof. exact ro_mutators_fail. Qed.
+Print Assumptions c11_ro_mutators_fail.
+
+(* what succeeds read-only returns the same result as in a writable session, which writes nothing *)
+Theorem c11_ro_reads_equal : forall o now s r t', ro s = false -> is_reopen o = false ->
+  exec o now (set_ro s true) = (t', r) -> (forall e, r <> RErr e) ->
+  exists t, exec o now s = (t, r) /\ sto t = sto s.
+Proof. exact ro_success_means_no_write. Qed.
+Print Assumptions c11_ro_reads_equal.
